@@ -48,6 +48,10 @@ PROPS = {
                       {"pkg": "sim", "test": "TestC11Persist", "quick": {"checks": 1, "shards": 1, "shrink": "0s", "timeout": "10m"}, "thorough": {"checks": 4, "shards": 4, "shrink": "0s", "timeout": "1h"}}]},
     "C12": {"level": "exploration", "assumptions": SIM_ASSUME + ["the wall clock of the sandbox: generated job ages stay >=25% away from the retention period boundaries"],
             "parts": [sim("TestC12", q=(250, 4), t=(2500, 16))]},
+    "C13": {"level": "exploration", "assumptions": ["the Go race detector (-race, Go 1.23.5) and the runtime's concurrent-map checks are the oracle; they see only executed paths within the detector's history window", "the harness's own runner, stores and counters are race-clean (they run under the same detector)"],
+            "parts": [{"pkg": "stress", "test": "TestC13", "race": True,
+                       "quick": {"checks": 60, "shards": 4, "shrink": "0s", "timeout": "15m", "env": {"GORACE": "halt_on_error=0"}},
+                       "thorough": {"checks": 1500, "shards": 16, "shrink": "0s", "timeout": "3h", "env": {"GORACE": "halt_on_error=0"}}}]},
     "C14": {"level": "exploration", "assumptions": PURE_ASSUME + ["HMAC-SHA256 is unforgeable; the run's secret never appears in a generated invalid credential unless the harness itself signs with it", "route discovery through the verif-only server.Routes hook + chi.Walk"],
             "parts": [rp("httpauth", "TestC14", (3000, 2), (60000, 8))]},
     "C15": {"level": "exploration", "assumptions": SIM_ASSUME, "parts": [sim("TestC15", q=(250, 4), t=(3000, 16))]},
